@@ -129,3 +129,30 @@ pub fn run_swap<'info>(
     }
     Ok(out)
 }
+
+/// Run the real creation-time swap-path validation (`SwapActionParamsExt::validate_and_init`, the
+/// crate-private function every `create_*` operation calls) on a fresh `SwapActionParams`.
+#[allow(clippy::too_many_arguments)]
+pub fn validate_and_init<'info>(
+    current: &AccountLoader<'info, Market>,
+    primary_length: u8,
+    secondary_length: u8,
+    paths: &'info [AccountInfo<'info>],
+    store: &Pubkey,
+    token_ins: (Pubkey, Pubkey),
+    token_outs: (Pubkey, Pubkey),
+) -> Result<SwapActionParams> {
+    use crate::states::common::swap::SwapActionParamsExt;
+    let mut params = SwapActionParams::default();
+    let current = current.load()?;
+    params.validate_and_init(
+        &*current,
+        primary_length,
+        secondary_length,
+        paths,
+        store,
+        (&token_ins.0, &token_ins.1),
+        (&token_outs.0, &token_outs.1),
+    )?;
+    Ok(params)
+}
